@@ -28,28 +28,32 @@ NA = {
 
 CLAIMED = {
     'C07': {
-        'design_ref': 'DESIGN.md §3',
-        'text': 'Seeded search over simulated histories of CliffordCircuit objects: interleaved appends (incl. scheduler-scripted random gates), '
-                'tableau/apply/export/compose queries, cache wipes, re-sized memo tables, rejected gates and KeyboardInterrupt/MemoryError injected at '
-                'function entries and loop back-edges, checked operation by operation against an independent dense reference model with a candidate-set '
-                'relaxation after faults. Exploration is the right level: the property quantifies over unbounded histories; a clean batch is evidence, not proof.',
-        'note': 'trusted: the dense model (models/dense_pauli.py), numpy; assumed: single-threaded use, callers do not mutate returned arrays; n<=5 qubits, <=60 ops per run',
+        'design_ref': 'DESIGN.md §3, §8',
+        'text': 'Seeded search over simulated histories of one or two CliffordCircuit objects: interleaved appends (aliases, numpy-int indices, scheduler-scripted random gates, '
+                'append bursts), tableau / apply / automorphism / export / compose / num_qubit queries, rejected calls, deep copies, pickle round trips and forks that stay in use, '
+                'cache wipes and re-sized memo tables, KeyboardInterrupt/MemoryError injected (sys.monitoring) at function entries, loop back-edges and returns of numqi code, '
+                'long-lived processes; every observation is checked against an independent dense reference model with a candidate-set relaxation after faults, arrays handed out '
+                'earlier are re-checked after every later operation. Exploration is the right level: the property quantifies over unbounded histories; a clean batch is evidence, not proof.',
+        'note': 'trusted: the dense model (models/dense_pauli.py), numpy; assumed: single-threaded use, callers do not mutate returned tableaux; n<=7 qubits, <=60 ops per run, <=5 qubits for the unitary->tableau oracle',
         'technique': 'deterministic simulation with fault injection: seeded history/fault scheduler + dense reference-model oracle + ddmin replay files',
     },
     'C10': {
-        'design_ref': 'DESIGN.md §4',
-        'text': 'Seeded search over histories in which every seeded API call is evaluated at >=2 positions of one run while the simulator owns all process entropy '
-                '(OS entropy stream, numpy/python/torch global generators, wall clock, memo tables, solver failures) and perturbs it in between; oracles: bit-identical '
-                'outcome per (call, seed), pristine-process digest, membership predicates of the advertised set, retry-after-fault equality.',
-        'note': 'trusted: numpy bit generators, membership predicates in models/membership.py; BLAS pinned to 1 thread; integer seeds only',
-        'technique': 'deterministic simulation with fault injection: sim-owned entropy/clock seams + seeded history scheduler + same-seed-same-bits and membership oracles',
+        'design_ref': 'DESIGN.md §4, §8',
+        'text': 'Seeded search over histories in which every seeded API call (all of numqi.random in every optional-argument branch, measurement, seeded circuits, CliffordCircuit, '
+                'purification, entangled subspaces, minimizers with callbacks, convex-hull and boundary solvers on re-used objects) is evaluated at >=2 positions of one run while the '
+                'simulator owns all process entropy (OS entropy stream, numpy/python/torch global generators, wall clock, memo tables, solver failures, forced discrete draws) and perturbs '
+                'it in between; oracles: bit-identical outcome per (call, seed), pristine-process digest under another hash seed and entropy stream, membership predicates of the advertised '
+                'set, retry-after-fault equality, caller-overwritten results, same-seed sibling calls.',
+        'note': 'trusted: numpy bit generators, membership predicates in models/membership.py; BLAS pinned to 1 thread; integer seeds only; multi-process branches (check_UD num_worker>1) are not simulated',
+        'technique': 'deterministic simulation with fault injection: sim-owned entropy/clock seams + seeded history scheduler + same-seed-same-bits, pristine-process and membership oracles',
     },
     'C11': {
-        'design_ref': 'DESIGN.md §5',
-        'text': 'Seeded search over measurement histories on a register and inside Circuit objects where the scheduler (not numpy) picks every measurement outcome, '
-                'so every outcome of every qubit subset (all 120 (n<=6, subset) pairs are stratified into quick) is reachable and chained (re-measure, nested, overlapping), '
-                'with cache wipes and injected exceptions; checked against a bit-mask Born-rule model.',
-        'note': 'trusted: the bit-mask Born model (models/born.py); outcomes with probability <1e-6 are treated as unreachable; n<=6 qubits',
+        'design_ref': 'DESIGN.md §5, §8',
+        'text': 'Seeded search over measurement histories on a register and inside Circuit objects where the scheduler (not numpy) picks every measurement outcome, so every outcome of '
+                'every qubit subset (all 120 (n<=6, subset) pairs are stratified into quick; outcomes down to probability 1e-24) is reachable and chained (re-measure, nested, overlapping), '
+                'with sweeps of the library\'s own sampler, shared gate objects via extend_circuit, shifts, classical-control and probe custom gates, the torch wrapper, re-used input buffers, '
+                'cache wipes and injected exceptions inside runs; the model predicts each gate\'s outcome and every record, final state, caller-owned input and earlier result is checked against a bit-mask Born-rule model.',
+        'note': 'trusted: the bit-mask Born model (models/born.py); complex128/float64 states, n<=6 qubits, tolerance 1e-9 absolute and 1e-6 relative; sharing a MeasureGate across a shift is unspecified in numqi and not exercised',
         'technique': 'deterministic simulation with fault injection: scheduler-scripted measurement outcomes + Born-rule reference model + fault injection inside circuit runs',
     },
 }
@@ -94,7 +98,7 @@ def main():
                      'kind_free_text': 'deterministic simulator: seeded plan generator, seams for entropy/clock/caches/global RNGs, settrace fault injector, reference-model oracles, ddmin shrinker, replay files'}],
         'checks': checks,
         'not_applicable': na,
-        'notes': 'See DESIGN.md. 17 of 20 properties are pure functions of their inputs and are not simulation targets; C07, C10, C11 are simulated. Genuine defects found and repaired are listed in known_findings.json (fixed entries suppress nothing).',
+        'notes': 'See DESIGN.md (§0 verdicts, §8 as built) and README.md. 17 of 20 properties are pure functions of their inputs and are not simulation targets; C07, C10, C11 are simulated. Four genuine defects found on the unchanged tree were repaired by fix: commits in /repo and are listed as fixed entries in known_findings.json (they suppress nothing). selftest/ holds the determinism and sensitivity self-tests with their last results; seeded/ holds 84 independently written breakages and what caught them.',
     }
     with open(os.path.join(HERE, 'MANIFEST.json'), 'w') as f:
         json.dump(m, f, indent=1)
